@@ -46,6 +46,15 @@ class UserAddEdge(ActionGroup):
                 f"Target node {target} not in solution yet - must be added before edge"
             )
 
+        # Edges in a tracking solution must point strictly forward in time
+        source_time = self.tracks.get_time(source)
+        target_time = self.tracks.get_time(target)
+        if source_time >= target_time:
+            raise InvalidActionError(
+                f"Cannot add edge {edge}: source (time {source_time}) is not before "
+                f"target (time {target_time})"
+            )
+
         # Check if making a merge. If yes and force, remove the other edge and update
         # track ids.
         in_degree_target = self.tracks.graph.in_degree(target)
